@@ -39,7 +39,7 @@ def diverged(net, k, hist, label, tainted=None):
                 what = "key-missing" if (a is None or b is None) else ("status-differs" if a[2] != b[2] else ("value-differs" if a[0] != b[0] else "version-differs"))
                 if what == "version-differs":
                     # a write issued on node i is applied there and applied again when the primary's copy comes back
-                    own = len([1 for (n_, c) in hist if n_ == i and key_of(c) == key and c.split(" ")[0] in ("set", "remove", "create-user", "set-permissions")])
+                    own = len([1 for (n_, c) in hist if n_ == i and key_of(c) == key and (c.split(" ")[0] in ("set", "remove", "create-user", "set-permissions") or c.startswith(f"set-safe {key} -1 "))])   # set-safe with version -1 IS a plain set
                     if own > 0 and 0 < b[1] - a[1] <= own:
                         fails.append(Failure("version-differs:echo-of-own-write", f"{db}/{key}: primary {a} n{i} {b} after {own} write(s) of the key issued on n{i}; history {hist}"))
                         if tainted is not None: tainted.add((i, db, key))
@@ -68,7 +68,7 @@ def scenario(k, n_ops, concurrent, single_node=None):
             node = single_node or (1 + rng.below(k))
             tmpl = rng.choice(OPS); ctr += 1
             if tmpl.startswith("set-safe"): node = safe_node
-            cmd = tmpl.format(v=ctr, ver=rng.below(4))
+            cmd = tmpl.format(v=ctr, ver=rng.choice([0, 1, 2, 3, 1, 2, -2, -1]))   # -2 = the "in conflict" marker a client may write, -1 = unversioned
             hist.append((node, cmd))
             if cmd == "SNAP":
                 # the periodic snapshot thread of ONE node runs (nodes snapshot on their own timers)
@@ -108,6 +108,27 @@ def scenario_snapshot_timing(k):
         return diverged(net, k, hist, "removed-key-rewritten-where-only-some-nodes-had-snapshotted-it")
     return fn
 
+def scenario_versions(k, script):
+    """fixed sequences around the version markers a client may write: -2 ('in conflict'), -1 (unversioned), exact and stale versions"""
+    def fn(net, rng):
+        if not setup(net, k, rng): return [Failure("cluster-does-not-form", f"{k} nodes")]
+        hist = []; found = []; tainted = set()
+        for node, cmd in script:
+            hist.append((node, cmd)); net.cmd(node, 1, cmd)
+            if net.quiesce(rng, 300) is None: return [Failure("no-quiescence", f"after {cmd}")]
+            fs = diverged(net, k, hist, f"{cmd.split(' ')[0]}-version-marker@{'primary' if node == 1 else 'secondary'}", tainted)
+            found += fs
+            if [f for f in fs if f.cls != "version-differs:echo-of-own-write"]: return found
+        return found
+    return fn
+
+VERSION_SCRIPTS = [
+    [(1, "set a 1"), (1, "set-safe a -2 marked"), (1, "set a 3"), (1, "set-safe a 7 seven"), (1, "set-safe a 2 stale")],
+    [(1, "set-safe a -2 first"), (1, "set-safe a -2 again"), (1, "remove a"), (1, "set a back")],
+    [(1, "set a 1"), (1, "set-safe a -1 plain"), (1, "set-safe a 5 jump"), (1, "set-safe a -2 marked"), (1, "increment a 1")],
+    [(1, "increment n 4"), (1, "set-safe n -2 9"), (1, "increment n 1"), (1, "set-safe n 0 1")],
+]
+
 def key_of(cmd):
     p = cmd.split(" ")
     if p[0] in ("set", "remove", "increment", "set-safe"): return p[1]
@@ -126,12 +147,13 @@ def scenarios(tier):
         S.append((f"k{k}-primary-only", scenario(k, 6, False, single_node=1)))
         S.append((f"k{k}-secondary-only", scenario(k, 6, False, single_node=2)))
         S.append((f"k{k}-snapshot-timing", scenario_snapshot_timing(k)))
+        for vi, sc in enumerate(VERSION_SCRIPTS): S.append((f"k{k}-version-markers-{vi}", scenario_versions(k, sc)))
     return S
 
 RULE = ("clusters of 2 and 3 real nodes formed through the real join path (join -> supervisor -> connections -> set-primary / set-secoundary / replicate-since handshakes), then sequences of 1-8 client operations "
-        "(set incl. multi-word values, remove, increment, set-safe from one node, create-user, set-permissions, snapshot, create-db) issued at seeded-random nodes, (a) sequentially with a seeded-random FIFO-respecting delivery order to quiescence "
+        "(set incl. multi-word values, remove, increment, set-safe from one node with versions -2 (the in-conflict marker), -1 and 0-3, create-user, set-permissions, snapshot, create-db) issued at seeded-random nodes, (a) sequentially with a seeded-random FIFO-respecting delivery order to quiescence "
         "after each operation and (b) with operations overlapping in flight (0-3 seeded-random deliveries between operations); at quiescence every node's full dataset (databases, strategy, per key value / removed status / version) is compared with the primary's. "
-        "Every primitive operation is also executed by the Lean model in lockstep and every output line compared. distinct by trace hash")
+        "plus fixed sequences around the version markers (-2, -1, exact, stale, jump) on the primary. Every primitive operation is also executed by the Lean model in lockstep and every output line compared. distinct by trace hash")
 
 def main(tier, seed):
     return netrunner.run(PID, LEAN_MODULE, THEOREMS, scenarios(tier), RULE, tier, seed,
